@@ -9,6 +9,7 @@ import (
 	"encoding/json"
 	"fmt"
 	"os"
+	"reflect"
 	"testing"
 )
 
@@ -152,6 +153,131 @@ func IteBool(c bool, a, b bool) bool {
 		return a
 	}
 	return b
+}
+
+// SameState: structural equality following pointers, ignoring function values and pointer identity,
+// with an absent map entry equal to a present "empty" one (nil, zero, empty container).
+func SameState(a, b any) bool {
+	return sameState(reflect.ValueOf(a), reflect.ValueOf(b), 0)
+}
+
+func emptyState(v reflect.Value) bool {
+	switch v.Kind() {
+	case reflect.Map:
+		if v.IsNil() {
+			return true
+		}
+		it := v.MapRange()
+		for it.Next() {
+			if !emptyState(it.Value()) {
+				return false
+			}
+		}
+		return true
+	case reflect.Slice:
+		return v.Len() == 0
+	case reflect.Pointer, reflect.Interface:
+		return v.IsNil()
+	case reflect.Bool:
+		return !v.Bool()
+	case reflect.Int, reflect.Int8, reflect.Int16, reflect.Int32, reflect.Int64:
+		return v.Int() == 0
+	case reflect.Uint, reflect.Uint8, reflect.Uint16, reflect.Uint32, reflect.Uint64, reflect.Uintptr:
+		return v.Uint() == 0
+	case reflect.String:
+		return v.Len() == 0
+	}
+	return false
+}
+
+func mapIncluded(a, b reflect.Value, d int) bool {
+	if a.IsNil() {
+		return true
+	}
+	it := a.MapRange()
+	for it.Next() {
+		if emptyState(it.Value()) {
+			continue
+		}
+		if b.IsNil() {
+			return false
+		}
+		// keys are compared with == semantics through MapIndex
+		bv := b.MapIndex(it.Key())
+		if !bv.IsValid() || !sameState(it.Value(), bv, d+1) {
+			return false
+		}
+	}
+	return true
+}
+
+func sameState(a, b reflect.Value, d int) bool {
+	if d > 14 {
+		panic("SameState: depth")
+	}
+	if a.IsValid() != b.IsValid() {
+		return false
+	}
+	if !a.IsValid() {
+		return true
+	}
+	if a.Type() != b.Type() {
+		return false
+	}
+	switch a.Kind() {
+	case reflect.Bool:
+		return a.Bool() == b.Bool()
+	case reflect.Int, reflect.Int8, reflect.Int16, reflect.Int32, reflect.Int64:
+		return a.Int() == b.Int()
+	case reflect.Uint, reflect.Uint8, reflect.Uint16, reflect.Uint32, reflect.Uint64, reflect.Uintptr:
+		return a.Uint() == b.Uint()
+	case reflect.Float32, reflect.Float64:
+		return a.Float() == b.Float()
+	case reflect.String:
+		return a.String() == b.String()
+	case reflect.Pointer:
+		if a.IsNil() || b.IsNil() {
+			return a.IsNil() && b.IsNil()
+		}
+		if a.Pointer() == b.Pointer() {
+			return true
+		}
+		return sameState(a.Elem(), b.Elem(), d+1)
+	case reflect.Interface:
+		if a.IsNil() || b.IsNil() {
+			return a.IsNil() && b.IsNil()
+		}
+		return sameState(a.Elem(), b.Elem(), d+1)
+	case reflect.Struct:
+		for i := 0; i < a.NumField(); i++ {
+			if !sameState(a.Field(i), b.Field(i), d+1) {
+				return false
+			}
+		}
+		return true
+	case reflect.Array:
+		for i := 0; i < a.Len(); i++ {
+			if !sameState(a.Index(i), b.Index(i), d+1) {
+				return false
+			}
+		}
+		return true
+	case reflect.Slice:
+		if a.Len() != b.Len() {
+			return false
+		}
+		for i := 0; i < a.Len(); i++ {
+			if !sameState(a.Index(i), b.Index(i), d+1) {
+				return false
+			}
+		}
+		return true
+	case reflect.Map:
+		return mapIncluded(a, b, d) && mapIncluded(b, a, d)
+	case reflect.Func, reflect.Chan:
+		return true
+	}
+	panic("SameState: unsupported kind " + a.Kind().String())
 }
 
 const (
